@@ -1792,6 +1792,23 @@ static void run_body(const std::string& part, const vf::Case& c, Flags& flags_ou
 				st.f.eq_cross = true;
 				CLS("sstr.whole_slot_compared");
 			}
+			if (mod(o.i(6), 8) < 6) {
+				// a heap string re-assigned from its own text through the pointer operator*() gives: the whole text (same pointer) or a
+				// tail that does not overlap the bytes it is copied to (after seeded C04-P)
+				std::string big = s1 + "|" + s2 + "|0123456789";
+				ExactC eb(big);
+				*t.v = (const char*)eb.p;
+				int L = (int)big.size(), kmin = (L + 2) / 2;
+				int k = mod(o.i(6), 8) == 0 ? 0 : kmin + mod(o.i(6) >> 3, L - kmin + 1);
+				const char* own = *(*t.v);
+				*t.v = own + k;
+				*t.m = ref::vstr(big.substr((size_t)k));
+				CLS(k == 0 ? "sstr.own_text_whole" : L - k < 8 ? "sstr.own_tail_short" : "sstr.own_tail_long");
+				check_value(*t.v, *t.m, tag + ": heap string assigned a tail of its own text");
+				ExactC et(big.substr((size_t)k));
+				Var fresh3 = String(et.p);
+				VF_CHECK(*t.v == fresh3 && fresh3 == *t.v, tag, ": ", t.name, " == Var(", vf::show(big.substr((size_t)k)), ") is false after assigning it from its own text at offset ", k);
+			}
 		}
 		else if (nm == "big") {
 			Loc t = resolve(st, o, 0);
